@@ -9,7 +9,7 @@ import tcpcl_util as tu
 
 MODULE = 'DtnVerif.Props.C17'
 
-STATES = ['pre_contact', 'in_contact', 'established', 'mid_rx', 'mid_tx', 'await_ack', 'two_tx', 'terminating']
+STATES = ['pre_contact', 'in_contact', 'established', 'mid_rx', 'mid_tx', 'await_ack', 'two_tx', 'terminating', 'term_queued']
 
 
 class Adversary(object):
@@ -135,6 +135,16 @@ class Adversary(object):
             self.drain()
             self.seen = len(self.frames())
             return True
+        if state == 'term_queued':
+            # transfer 1 in the middle of its segments, transfer 2 queued and never started, then termination:
+            # transfer 2 is reported as not sent and forgotten; the peer may still name its id
+            sim.send(x, bytes(range(30)))
+            sim.pq(x)
+            sim.send(x, bytes(range(100, 125)))
+            sim.terminate(x, 0)
+            self.own = [bytes(range(30))]
+            self.seen = len(self.frames())
+            return True
         return False
 
 
@@ -150,6 +160,9 @@ def adversarial_msgs():
         ('ack_own_end_early', {'k': 'xfer_ack', 'flags': 1, 'tid': 1, 'len': 3}),
         ('refuse_unknown', {'k': 'xfer_refuse', 'reason': 2, 'tid': 999}),
         ('refuse_own', {'k': 'xfer_refuse', 'reason': 3, 'tid': 1}),
+        ('refuse_second', {'k': 'xfer_refuse', 'reason': 2, 'tid': 2}),
+        ('ack_second_end', {'k': 'xfer_ack', 'flags': 1, 'tid': 2, 'len': 25}),
+        ('ack_second_mid', {'k': 'xfer_ack', 'flags': 0, 'tid': 2, 'len': 5}),
         ('sess_term', {'k': 'sess_term', 'flags': 0, 'reason': 1}),
         ('sess_term_reply', {'k': 'sess_term', 'flags': 1, 'reason': 0}),
         ('keepalive', {'k': 'keepalive'}),
@@ -193,7 +206,7 @@ def run_case(chk, rng, passive, state, seq, cuts):
                 adv.blame.append((o['escaped'], 'precontact' if state == 'pre_contact' else name))
     # afterwards behave: acknowledge everything X sent, let it finish
     own = getattr(adv, 'own', [])
-    if not x.closed() and state in ('mid_tx', 'await_ack', 'two_tx'):
+    if not x.closed() and state in ('mid_tx', 'await_ack', 'two_tx', 'term_queued'):
         for m in getattr(adv, 'unacked', []):
             pass
         adv.seen = 0
@@ -285,6 +298,8 @@ def judge(chk, adv, mark, wire_before, own, label, seqnames, state):
                     bad.append(('C17:delivered-data-mismatched', 'transfer %d delivered with %d octets differing from what was sent for it' % (t, len(have))))
     # own transfers unaffected (unless the peer legitimately refused them or terminated the session)
     refused = any(n in ('refuse_own', 'ack_own_end_early', 'sess_term', 'sess_term_reply', 'sess_init_again') for n in seqnames)
+    if state == 'two_tx' and any(n in ('refuse_second', 'ack_second_end') for n in seqnames):
+        refused = True          # transfer 2 exists there: the peer may refuse it / acknowledge it early
     if state in ('pre_contact', 'in_contact'):
         # before the session exists none of these is legitimate: they are rejected and change nothing
         # (a SESS_INIT in the sequence establishes the session: what follows it can be legitimate)
